@@ -56,21 +56,23 @@ type VDoc struct {
 
 // VLayout: how the printer lays the document out (C18b).
 type VLayout struct {
-	Name    string
-	NL      string // line terminator: "\n", "\r", "\r\n"
-	Indent  string
-	Lead    string // if non-empty, a comment line before the first definition
-	Comment string // if non-empty, a comment line before every selection
-	Compact bool   // one line, single spaces
+	Name       string
+	NL         string // line terminator: "\n", "\r", "\r\n"
+	Indent     string
+	Lead       string // if non-empty, a comment line before the first definition
+	Comment    string // if non-empty, a comment line before every selection
+	Compact    bool   // one line, single spaces
+	FragsFirst bool   // fragment definitions before the operations (the order of definitions is free)
 }
 
 var VLayouts = map[string]VLayout{
-	"lf":      {Name: "lf", NL: "\n", Indent: "  "},
-	"cr":      {Name: "cr", NL: "\r", Indent: "  "},
-	"crlf":    {Name: "crlf", NL: "\r\n", Indent: "\t"},
-	"comment": {Name: "comment", NL: "\n", Indent: " ", Lead: " leading comment, with { braces } and $x", Comment: " c"},
-	"crlfcom": {Name: "crlfcom", NL: "\r\n", Indent: "  ", Lead: " lead", Comment: " c"},
-	"compact": {Name: "compact", NL: "\n", Compact: true},
+	"lf":         {Name: "lf", NL: "\n", Indent: "  "},
+	"cr":         {Name: "cr", NL: "\r", Indent: "  "},
+	"crlf":       {Name: "crlf", NL: "\r\n", Indent: "\t"},
+	"comment":    {Name: "comment", NL: "\n", Indent: " ", Lead: " leading comment, with { braces } and $x", Comment: " c"},
+	"crlfcom":    {Name: "crlfcom", NL: "\r\n", Indent: "  ", Lead: " lead", Comment: " c"},
+	"compact":    {Name: "compact", NL: "\n", Compact: true},
+	"fragsfirst": {Name: "fragsfirst", NL: "\n", Indent: "  ", FragsFirst: true},
 }
 
 // VPrinted is the text plus the byte offset at which every node of the specification's
@@ -247,54 +249,66 @@ func PrintV(d *VDoc, lay VLayout) *VPrinted {
 		p.sb.WriteString("#" + lay.Lead)
 		first = false
 	}
-	for i, op := range d.Ops {
-		sep()
-		ok := "o" + strconv.Itoa(i+1)
-		p.mark(ok)
-		short := op.Kind == "query" && op.Name == "" && len(op.VDefs) == 0 && len(op.Dirs) == 0
-		if !short {
-			p.sb.WriteString(op.Kind)
-			if op.Name != "" {
-				p.sb.WriteString(" ")
-				p.mark(ok + ".n")
-				p.sb.WriteString(op.Name)
-			}
-			if len(op.VDefs) > 0 {
-				p.sb.WriteString("(")
-				for j, vd := range op.VDefs {
-					if j > 0 {
-						p.sb.WriteString(", ")
-					}
-					vk := ok + ".v" + strconv.Itoa(j+1)
-					p.mark(vk)
-					p.sb.WriteString("$")
-					p.mark(vk + ".n") // the Name node of the variable
-					p.sb.WriteString(vd.N + ": ")
-					p.typeRef(vd.Type, vk+".t")
-					if vd.HasDef {
-						p.sb.WriteString(" = ")
-						p.value(vd.Def, vk+".d")
-					}
+	printFrags := func() {}
+	printOps := func() {
+		for i, op := range d.Ops {
+			sep()
+			ok := "o" + strconv.Itoa(i+1)
+			p.mark(ok)
+			short := op.Kind == "query" && op.Name == "" && len(op.VDefs) == 0 && len(op.Dirs) == 0
+			if !short {
+				p.sb.WriteString(op.Kind)
+				if op.Name != "" {
+					p.sb.WriteString(" ")
+					p.mark(ok + ".n")
+					p.sb.WriteString(op.Name)
 				}
-				p.sb.WriteString(")")
+				if len(op.VDefs) > 0 {
+					p.sb.WriteString("(")
+					for j, vd := range op.VDefs {
+						if j > 0 {
+							p.sb.WriteString(", ")
+						}
+						vk := ok + ".v" + strconv.Itoa(j+1)
+						p.mark(vk)
+						p.sb.WriteString("$")
+						p.mark(vk + ".n") // the Name node of the variable
+						p.sb.WriteString(vd.N + ": ")
+						p.typeRef(vd.Type, vk+".t")
+						if vd.HasDef {
+							p.sb.WriteString(" = ")
+							p.value(vd.Def, vk+".d")
+						}
+					}
+					p.sb.WriteString(")")
+				}
+				p.dirs(op.Dirs, ok)
+				p.sb.WriteString(" ")
 			}
-			p.dirs(op.Dirs, ok)
-			p.sb.WriteString(" ")
+			p.sels(op.Sel, 0)
 		}
-		p.sels(op.Sel, 0)
 	}
-	for i, f := range d.Frags {
-		sep()
-		fk := "f" + strconv.Itoa(i+1)
-		p.mark(fk)
-		p.sb.WriteString("fragment ")
-		p.mark(fk + ".n")
-		p.sb.WriteString(f.Name + " on ")
-		p.mark(fk + ".on")
-		p.sb.WriteString(f.On)
-		p.dirs(f.Dirs, fk)
-		p.sb.WriteString(" ")
-		p.sels(f.Sel, 0)
+	printFrags = func() {
+		for i, f := range d.Frags {
+			sep()
+			fk := "f" + strconv.Itoa(i+1)
+			p.mark(fk)
+			p.sb.WriteString("fragment ")
+			p.mark(fk + ".n")
+			p.sb.WriteString(f.Name + " on ")
+			p.mark(fk + ".on")
+			p.sb.WriteString(f.On)
+			p.dirs(f.Dirs, fk)
+			p.sb.WriteString(" ")
+			p.sels(f.Sel, 0)
+		}
+	}
+	if lay.FragsFirst {
+		printFrags()
+		printOps()
+	} else {
+		printOps()
+		printFrags()
 	}
 	p.out.Text = p.sb.String()
 	return p.out
